@@ -280,10 +280,16 @@ def fetchFlowCollectionStart (tok : TokenType) : S Unit := do
   allowSimpleKey
   let startMark ← getMark
   skipNonBlank
-  if tok == .flowMappingStart then modS fun s => { s with flowMappingStarted := true }
+  if tok == .flowMappingStart then modS fun s => { s with implStates := .explicitMapping :: s.implStates }
   else modS fun s => { s with implStates := .possible :: s.implStates }
   let _ ← skipWsToEol .yes
   pushTok ⟨startMark, ← getMark⟩ tok
+
+/-- `}`: leave the explicit-mapping entry of the state stack (if it is on top) -/
+def popExplicitMapping (s : Sc) : Sc :=
+  match s.implStates with
+  | .explicitMapping :: r => { s with implStates := r }
+  | _ => s
 
 def fetchFlowCollectionEnd (tok : TokenType) : S Unit := do
   removeSimpleKey
@@ -292,6 +298,7 @@ def fetchFlowCollectionEnd (tok : TokenType) : S Unit := do
   if tok == .flowSequenceEnd then do
     endImplicitMapping (← getMark)
     modS fun s => { s with implStates := s.implStates.tail }
+  else modS popExplicitMapping
   let startMark ← getMark
   skipNonBlank
   let _ ← skipWsToEol .yes
